@@ -381,8 +381,25 @@ def c14_gen(rng, cid, tier):
             ops.append(('c', c, rng.choice(('pos', 'kw', 'default'))))
         elif r < 0.55:
             ops.append(('s', c, rng.choice(('kw', 'default'))))
-        elif r < 0.68:
+        elif r < 0.64:
             ops.append(('inf', c, rng.randint(0, 2)))
+        elif r < 0.70:
+            # a rule whose body ranges, WITHOUT a domain, over the registry of a class (possibly the very class - or an
+            # ancestor of the class - it creates instances of): one new instance per instance constructed so far
+            # (the class it creates instances of is either the ranged-over class itself, that class having no subclass - the
+            #  instances created during the evaluation are then not visited, or it would never end - or outside its
+            #  subtree; whether instances created during the evaluation in ANOTHER class of the ranged-over subtree are
+            #  visited is left open by the property: not generated)
+            def in_subtree(x, root):
+                while x is not None:
+                    if x == root:
+                        return True
+                    x = classes[x][1]
+                return False
+            leaf = not any(in_subtree(x, c) for x in range(n_cls) if x != c)
+            ts = [t for t in range(n_cls) if (t == c and leaf) or not in_subtree(c, t)]
+            if ts:
+                ops.append(('infself', c, rng.choice(ts)))
         elif r < 0.75:
             ops.append(('clr',))
         else:
@@ -402,7 +419,7 @@ def c14_sexp(case):
         elif op[0] == 'inf':
             ops += [('c', op[1])] * op[2]
         else:
-            ops.append(op)
+            ops.append(op)           # ('q', c) ('clr',) ('infself', c, t)
     return sexp(('reg', case['id'], ('classes',) + cl, ('ops',) + tuple(ops)))
 
 
@@ -466,6 +483,18 @@ def c14_impl(case):
                     n += 1
                 if len(made) != op[2]:
                     outs.append(f'INFER-COUNT-{len(made)}')
+            elif k == 'infself':
+                with rule_mode():
+                    src = let(built[op[2]])
+                    q = infer(entity(built[op[1]](a=src.a), src.a >= 0))
+                made = list(q.evaluate())
+                for o in made:
+                    if type(o) is not built[op[1]]:
+                        outs.append('NOT-AN-INSTANCE:' + type(o).__name__)
+                    ids[id(o)] = n
+                    keep.append(o)
+                    n += 1
+                outs.append(f'N{len(made)}')
             elif k == 'clr':
                 for c in list(Variable._cache_.values()):
                     c.clear()
@@ -487,7 +516,9 @@ def c14(report, rng, tier, findings):
     lines = run_driver([c14_sexp(c) for c in cases])
     report.rule = ("random hierarchies of 1-5 classes (decorated roots, decorated and undecorated subclasses, dataclasses and a "
                    "hand-written __init__) and histories of 3-10 (thorough 18) operations: concrete construction by position / keyword / "
-                   "default, symbolic construction, rule inference creating 0-2 instances, registry clearing and no-domain queries "
+                   "default, symbolic construction, rule inference creating 0-2 instances, rule inference whose body ranges without a "
+                   "domain over the registry of a class (also the class it creates instances of: one new instance per instance "
+                   "constructed so far), registry clearing and no-domain queries "
                    "(declare-and-evaluate); every query answer is compared BY IDENTITY with the harness's own construction log through "
                    "the model, and the number of __init__ runs is compared; non-trivial = the history queries a class after at "
                    "least one concrete construction of it or of a subclass")
@@ -497,7 +528,7 @@ def c14(report, rng, tier, findings):
             raise HarnessError('driver: ' + line + ' :: ' + c14_sexp(case))
         _, body, m_inits = line.split('\t')
         model = body.split('|') if body else []
-        if len(model) == 1 and model[0] == '' and sum(1 for o in case['ops'] if o[0] == 'q') == 1:
+        if len(model) == 1 and model[0] == '' and sum(1 for o in case['ops'] if o[0] in ('q', 'infself')) == 1:
             model = ['']
         for op in case['ops']:
             report.count('op_' + op[0])
@@ -505,7 +536,7 @@ def c14(report, rng, tier, findings):
             report.nontrivial.add(c14_sexp({**case, 'id': 'x'}))
         report.add_sample(c14_sexp(case))
         report.traces += len(outs)
-        nq = sum(1 for o in case['ops'] if o[0] == 'q')
+        nq = sum(1 for o in case['ops'] if o[0] in ('q', 'infself'))
         model = (body.split('|') + [''] * nq)[:nq] if nq else []
         if outs != model or str(inits) != m_inits:
             what = (f'no-domain queries returned {outs} (instances numbered by construction order), the registry log says '
